@@ -1,13 +1,19 @@
 (* C03 — property theorems (statements only; proofs live in Proofs*.v).
 
    run p s drop            operational model of PulseTemplate._create_program on the constructed template p with
-                           scope object s (Model.v); create_program u values drop = run (construct u) (SDict values) drop
+                           scope object s and the set `drop` of channels mapped to None (Model.v);
+                           create_program u values drop = run (construct u) (SDict values) drop
    verdict p rho drop      the ideal lazy verdict over obs p rho drop, the obligations of all reached nodes (Spec.v)
    visible / all_hold / none_missing / plays   the specification's visible constraints, "everything holds",
                            "no needed value missing", "something is played"
+   ob_abs                  an obligation with its environment evaluated away (what is asked + its value)
    wf p                    every mapping has an entry for every parameter of its template, parts of a multi-channel
                            atom are atomic; established by the constructors (C03_construct_wf)
-   uok u                   user-level precondition of construct: parts of an AtomicMultiChannelPT are atomic       *)
+   uok u                   user-level precondition of construct: parts of an AtomicMultiChannelPT are atomic
+   guard_C03_function_zero p rho drop   no reached function atom has an expression that cannot be evaluated but
+                           whose symbolic residual is closed (known finding function-zero-factor-hides-missing-parameter)
+   refines a b             a = b, or a = Err Missing, or b = Err Missing and a = Err Other
+   refines_u a b           a = b, or a = Err Missing, or b = Err Missing                                              *)
 From Coq Require Import ZArith QArith Bool List.
 Require Import QV.C03.Model QV.C03.Spec QV.C03.Proofs QV.C03.Proofs2 QV.C03.Proofs3 QV.C03.Proofs4 QV.C03.Proofs5
                QV.C03.Proofs6 QV.C03.Proofs7 QV.C03.Proofs8 QV.C03.Proofs9.
@@ -16,11 +22,32 @@ Theorem C03_construct_wf : forall u, uok u -> wf (construct u).
 Proof. exact construct_wf. Qed.
 Print Assumptions C03_construct_wf.
 
-(* every scope, every tree: the model agrees with the ideal verdict, or reports a missing parameter, or reports
-   another error where the ideal verdict reports a missing value *)
-Theorem C03_refines : forall p s drop, wf p -> refines (run p s drop) (verdict p (lookup s) drop).
+(* MappingPT.__init__ (identity completion, merging of nested mappings) preserves the specification: the obligations
+   (what is asked and its value, in order) and whether something plays.  Hence every theorem below speaks about the
+   specification of the user-level tree u, which is what check_spec evaluates. *)
+Theorem C03_construct_spec : forall u, uok u -> forall rho drop,
+  map ob_abs (obs (construct u) rho drop) = map ob_abs (obs u rho drop)
+  /\ plays (construct u) rho drop = plays u rho drop.
+Proof. exact construct_obs. Qed.
+Print Assumptions C03_construct_spec.
+
+(* every scope, every constructed tree: the model agrees with the ideal verdict, or reports a missing parameter, or
+   reports another error where the ideal verdict reports a missing value *)
+Theorem C03_refines : forall p s drop, wf p -> guard_C03_function_zero p (lookup s) drop = true ->
+  refines (run p s drop) (verdict p (lookup s) drop).
 Proof. intros p s drop H. exact (run_ref p H s drop). Qed.
 Print Assumptions C03_refines.
+
+(* ... without the guard: where the ideal verdict is "missing value" the model (= the code) may do anything *)
+Theorem C03_refines_unguarded : forall p s drop, wf p -> refines_u (run p s drop) (verdict p (lookup s) drop).
+Proof. intros p s drop H. exact (run_ref_u p H s drop). Qed.
+Print Assumptions C03_refines_unguarded.
+
+Theorem C03_user_refines : forall u values drop, uok u ->
+  guard_C03_function_zero u (lookup (SDict values)) drop = true ->
+  refines (create_program u values drop) (verdict u (lookup (SDict values)) drop).
+Proof. exact user_refines. Qed.
+Print Assumptions C03_user_refines.
 
 (* (a) values for the declared names suffice: never "missing parameter" *)
 Theorem C03_sufficient : forall u values drop, uok u ->
@@ -42,81 +69,54 @@ Print Assumptions C03_irrelevant.
 Theorem C03_constraints : forall u values drop b, uok u ->
   (forall x, In x (pnames (construct u)) -> In x (map fst values)) ->
   (create_program u values drop = Ok b <->
-   all_hold (construct u) (lookup (SDict values)) drop = true /\ b = plays (construct u) (lookup (SDict values)) drop).
-Proof. exact complete_iff. Qed.
+   all_hold u (lookup (SDict values)) drop = true /\ b = plays u (lookup (SDict values)) drop).
+Proof. exact user_iff. Qed.
 Print Assumptions C03_constraints.
 
 (* (c) ... otherwise, numbers being well-formed, a constraint violation is raised *)
 Theorem C03_constraints_reject : forall u values drop, uok u ->
   (forall x, In x (pnames (construct u)) -> In x (map fst values)) ->
-  all_hold (construct u) (lookup (SDict values)) drop = false ->
-  some_other (construct u) (lookup (SDict values)) drop = false ->
-  create_program u values drop = Err Violated.
-Proof. exact complete_violated. Qed.
-Print Assumptions C03_constraints_reject.
-
-(* (c, only-if, any assignment / scope) a result is returned only if every visible constraint is true in the
-   environment its node sees and no needed value is missing *)
-Theorem C03_constraints_sound : forall p s drop b, wf p -> run p s drop = Ok b ->
-  (forall c r, In (c, r) (visible p (lookup s) drop) -> ceval r c = Some true)
-  /\ none_missing p (lookup s) drop = true /\ b = plays p (lookup s) drop.
-Proof.
-  intros p s drop b Hwf Hr. destruct (accepted_sound p s drop b Hwf Hr) as [H1 H2].
-  split; [apply all_hold_visible; auto|split; [apply all_hold_none_missing; auto|auto]].
-Qed.
-Print Assumptions C03_constraints_sound.
-
-(* (c, never rejects wrongly, any assignment / scope) a violation is raised only for a false visible constraint *)
-Theorem C03_violation_justified : forall p s drop, wf p -> run p s drop = Err Violated ->
-  exists c r, In (c, r) (visible p (lookup s) drop) /\ ceval r c = Some false.
-Proof. exact violated_sound. Qed.
-Print Assumptions C03_violation_justified.
-
-(* (d) a missing needed value never yields a program (nor None) *)
-Theorem C03_missing : forall p s drop b, wf p -> none_missing p (lookup s) drop = false -> run p s drop <> Ok b.
-Proof. exact missing_never_ok. Qed.
-Print Assumptions C03_missing.
-
-(* ---- the specification on the user-level tree u (what check_spec evaluates) = on the constructed tree ---- *)
-(* MappingPT.__init__ (identity completion, merging of nested mappings) preserves the obligations (what is asked and
-   its value, in order) and whether something plays *)
-Theorem C03_construct_spec : forall u, uok u -> forall rho drop,
-  map ob_abs (obs (construct u) rho drop) = map ob_abs (obs u rho drop)
-  /\ plays (construct u) rho drop = plays u rho drop.
-Proof. exact construct_obs. Qed.
-Print Assumptions C03_construct_spec.
-
-Theorem C03_user_refines : forall u values drop, uok u ->
-  refines (create_program u values drop) (verdict u (lookup (SDict values)) drop).
-Proof. exact user_refines. Qed.
-Print Assumptions C03_user_refines.
-
-Theorem C03_user_constraints : forall u values drop b, uok u ->
-  (forall x, In x (pnames (construct u)) -> In x (map fst values)) ->
-  (create_program u values drop = Ok b <->
-   all_hold u (lookup (SDict values)) drop = true /\ b = plays u (lookup (SDict values)) drop).
-Proof. exact user_iff. Qed.
-Print Assumptions C03_user_constraints.
-
-Theorem C03_user_constraints_reject : forall u values drop, uok u ->
-  (forall x, In x (pnames (construct u)) -> In x (map fst values)) ->
   all_hold u (lookup (SDict values)) drop = false -> some_other u (lookup (SDict values)) drop = false ->
   create_program u values drop = Err Violated.
 Proof. exact user_violated. Qed.
-Print Assumptions C03_user_constraints_reject.
+Print Assumptions C03_constraints_reject.
 
-Theorem C03_user_constraints_sound : forall u values drop b, uok u -> create_program u values drop = Ok b ->
+(* (c, only-if, any assignment) a result is returned only if every visible constraint is true in the environment its
+   node sees and no needed value is missing *)
+Theorem C03_constraints_sound : forall u values drop b, uok u ->
+  guard_C03_function_zero u (lookup (SDict values)) drop = true -> create_program u values drop = Ok b ->
   (forall c r, In (c, r) (visible u (lookup (SDict values)) drop) -> ceval r c = Some true)
   /\ none_missing u (lookup (SDict values)) drop = true /\ b = plays u (lookup (SDict values)) drop.
 Proof. exact user_sound. Qed.
-Print Assumptions C03_user_constraints_sound.
+Print Assumptions C03_constraints_sound.
 
-Theorem C03_user_violation_justified : forall u values drop, uok u -> create_program u values drop = Err Violated ->
+(* the same for an arbitrary scope object and constructed tree *)
+Theorem C03_constraints_sound_scope : forall p s drop b, wf p -> guard_C03_function_zero p (lookup s) drop = true ->
+  run p s drop = Ok b ->
+  (forall c r, In (c, r) (visible p (lookup s) drop) -> ceval r c = Some true)
+  /\ none_missing p (lookup s) drop = true /\ b = plays p (lookup s) drop.
+Proof.
+  intros p s drop b Hwf Hg Hr. destruct (accepted_sound p s drop b Hwf Hg Hr) as [H1 H2].
+  split; [apply all_hold_visible; auto|split; [apply all_hold_none_missing; auto|auto]].
+Qed.
+Print Assumptions C03_constraints_sound_scope.
+
+(* (c, never rejects wrongly, any assignment) a violation is raised only for a false visible constraint *)
+Theorem C03_violation_justified : forall u values drop, uok u ->
+  guard_C03_function_zero u (lookup (SDict values)) drop = true -> create_program u values drop = Err Violated ->
   exists c r, In (c, r) (visible u (lookup (SDict values)) drop) /\ ceval r c = Some false.
 Proof. exact user_violation_justified. Qed.
-Print Assumptions C03_user_violation_justified.
+Print Assumptions C03_violation_justified.
 
-Theorem C03_user_missing : forall u values drop b, uok u -> none_missing u (lookup (SDict values)) drop = false ->
-  create_program u values drop <> Ok b.
+(* (d) a missing needed value never yields a program (nor None) -- under the guard ... *)
+Theorem C03_missing : forall u values drop b, uok u ->
+  guard_C03_function_zero u (lookup (SDict values)) drop = true ->
+  none_missing u (lookup (SDict values)) drop = false -> create_program u values drop <> Ok b.
 Proof. exact user_missing. Qed.
-Print Assumptions C03_user_missing.
+Print Assumptions C03_missing.
+
+(* ... and not without it: FunctionPT('(p0*p5)*t') with p0 = 0, p5 missing yields a program (known finding) *)
+Theorem C03_missing_refuted : exists u values drop b, uok u /\
+  none_missing u (lookup (SDict values)) drop = false /\ create_program u values drop = Ok b.
+Proof. exact missing_refuted. Qed.
+Print Assumptions C03_missing_refuted.
